@@ -141,7 +141,7 @@ type App struct {
 	LocalScheme string
 	// IDScheme, if set, is the scheme of the ids NewID mints (it may differ from the scheme the
 	// endpoints are served under, e.g. plain http behind a TLS-terminating proxy minting https ids).
-	IDScheme string
+	IDScheme    string
 	Store       map[string][]byte   // id -> canonical JSON
 	Inboxes     map[string][]string // inbox IRI -> activity ids, newest first
 	Outboxes    map[string][]string
@@ -170,6 +170,9 @@ type App struct {
 	RealTransport bool
 	InboxOutcome  map[string]int
 	RTClient      *RTClient
+	// CBError, if set, is returned (by identity) from every application callback, e.g. the documented
+	// sentinels pub.ErrObjectRequired / pub.ErrTargetRequired an application's DefaultCallback may use.
+	CBError error
 	// CBKeep, if set, names the single activity type whose application hook (wrapped or 'other')
 	// is configured; all other hooks are nil.
 	CBKeep string
@@ -178,11 +181,13 @@ type App struct {
 
 	// Sync makes Actor() return one shared actor whose application interfaces are safe for
 	// free-running goroutines (real per-id mutexes); used by the -race passes only.
-	Sync      bool
-	syncActor map[ActorKind]pub.Actor
-	actors    map[ActorKind]pub.Actor
-	syncMu    *sync.Mutex // serialises the application callbacks handed out as closures
-	syncSt    *syncState
+	Sync        bool
+	syncActor   map[ActorKind]pub.Actor
+	actors      map[ActorKind]pub.Actor
+	handler     pub.HandlerFunc
+	handlerSync bool
+	syncMu      *sync.Mutex // serialises the application callbacks handed out as closures
+	syncSt      *syncState
 
 	// exploration plumbing
 	X        *mc.Exec
@@ -239,6 +244,7 @@ func (a *App) Clone() *App {
 	b.X, b.S = nil, nil
 	b.syncActor, b.syncMu, b.syncSt = nil, nil, nil
 	b.RTClient = nil
+	b.handler = nil
 	b.actors = nil // a clone is a different application: its actors are built over the clone
 	b.faultN = 0
 	return &b
@@ -591,11 +597,19 @@ func (a *App) Actor(k ActorKind) pub.Actor {
 }
 
 // Handler builds the ActivityStreams GET handler.
+// Handler returns the application's ActivityStreams handler. Like a real application the model
+// builds it ONCE and serves every request of a history through the same HandlerFunc value.
 func (a *App) Handler() pub.HandlerFunc {
-	if a.LocalScheme != "" && a.LocalScheme != "https" {
-		return pub.NewActivityStreamsHandlerScheme(DB{a}, Clk{a}, a.LocalScheme)
+	if a.handler != nil && a.Sync == a.handlerSync {
+		return a.handler
 	}
-	return pub.NewActivityStreamsHandler(DB{a}, Clk{a})
+	if a.LocalScheme != "" && a.LocalScheme != "https" {
+		a.handler = pub.NewActivityStreamsHandlerScheme(DB{a}, Clk{a}, a.LocalScheme)
+	} else {
+		a.handler = pub.NewActivityStreamsHandler(DB{a}, Clk{a})
+	}
+	a.handlerSync = a.Sync
+	return a.handler
 }
 
 // LocalPrefix is the prefix of this server's own IRIs.
